@@ -42,8 +42,11 @@ def gen(rng, tier):
                     num.rnd(ty, 2.0 ** -(rng.choice([20, 22, 23, 24, 25, 30]) if ty == "f32" else rng.choice([40, 50, 51, 52, 53, 54, 60])))
                 x[3], y[3] = (num.rnd(ty, 1.0 - e), num.rnd(ty, 1.0 - e * rng.unit())) if rng.chance(1, 2) else (e, num.rnd(ty, e * rng.unit()))
             pairs.append(("float", x, y))
-        for tag, x, y in pairs:
+        for i, (tag, x, y) in enumerate(pairs):
             for op in ("bmul", "bcomul"):
+                if i % 5 == 0 and admissible(op, x, x):
+                    # one object as receiver and argument (x AND x is NOT x: the operands count as independent)
+                    out.append(Case(op, ty, "bi", "alias", [], x + x, tag="same_object"))
                 if admissible(op, x, y):
                     out.append(Case(op, ty, "bi", "-", [], x + y, tag=tag))
                     if tag != "float" or True:
